@@ -215,6 +215,16 @@ class SuperSpeedStreamInEndpoint(Elaboratable):
         # Any transaction packets we generate (NRDY / ERDY) are for our own endpoint.
         m.d.comb += handshakes_out.endpoint_number.eq(self._endpoint_number)
 
+        # Describe the packet we're sending (or about to send) for as long as we hold it: our transmitter
+        # latches these when our stream goes valid; and for a packet that fits into a single word, that's
+        # only once we've already left SEND_PACKET.
+        m.d.comb += [
+            interface.tx_direction        .eq(USBDirection.IN),
+            interface.tx_sequence_number  .eq(sequence_number),
+            interface.tx_length           .eq(read_fill_count),
+            interface.tx_endpoint_number  .eq(self._endpoint_number),
+        ]
+
         with m.FSM(domain='ss'):
 
             # WAIT_FOR_DATA -- We don't yet have a full packet to transmit, so  we'll capture data
@@ -288,11 +298,7 @@ class SuperSpeedStreamInEndpoint(Elaboratable):
                     # Otherwise, we entered a transmit path without any data in the buffer.
                     with m.Else():
                         # ... send a ZLP...
-                        m.d.comb += [
-                            interface.tx_zlp              .eq(1),
-                            interface.tx_sequence_number  .eq(sequence_number),
-                            interface.tx_endpoint_number  .eq(self._endpoint_number),
-                        ]
+                        m.d.comb += interface.tx_zlp.eq(1)
 
                         # ... and clear the need to follow up with one, since we've just sent a short packet.
                         m.d.ss += [
@@ -307,14 +313,6 @@ class SuperSpeedStreamInEndpoint(Elaboratable):
             # SEND_PACKET -- we now have enough data to send _and_ have received an IN token.
             # We can now send our data over to the host.
             with m.State("SEND_PACKET"):
-
-                m.d.comb += [
-                    # Apply our general transfer information.
-                    interface.tx_direction        .eq(USBDirection.IN),
-                    interface.tx_sequence_number  .eq(sequence_number),
-                    interface.tx_length           .eq(read_fill_count),
-                    interface.tx_endpoint_number  .eq(self._endpoint_number),
-                ]
 
                 with m.If(~out_stream.valid.any() | out_stream.ready):
                     # Once we emitted a word of data for our receiver, move to the next word in our packet.
@@ -393,11 +391,7 @@ class SuperSpeedStreamInEndpoint(Elaboratable):
                         # In this case, we'll re-transmit the relevant data, either by sending another ZLP
                         # (with the sequence number it had the first time)...
                         with m.If(last_packet_was_zlp):
-                            m.d.comb += [
-                                interface.tx_zlp              .eq(1),
-                                interface.tx_sequence_number  .eq(sequence_number),
-                                interface.tx_endpoint_number  .eq(self._endpoint_number),
-                            ]
+                            m.d.comb += interface.tx_zlp.eq(1)
 
                         # ... or by moving right back into sending a data packet.
                         with m.Else():
@@ -432,7 +426,6 @@ class SuperSpeedStreamInEndpoint(Elaboratable):
                                 m.d.comb += [
                                     interface.tx_zlp              .eq(1),
                                     interface.tx_sequence_number  .eq(next_sequence_number),
-                                    interface.tx_endpoint_number  .eq(self._endpoint_number),
                                 ]
 
                                 # ... and clear the need to follow up with one, since we've just sent a short packet.
